@@ -64,7 +64,7 @@ static std::string describe(tape_t const& tape)
     for (std::size_t j = 0; j < c.cbs.size(); ++j)
     {
         auto const& s = c.cbs[j];
-        os << (j ? ", " : "") << "{\"pre\": " << s.pre_steps << ", \"hold\": " << s.hold_steps << ", \"body_steps\": " << s.body_steps << ", \"body\": \""
+        os << (j ? ", " : "") << "{\"pre\": " << s.pre_steps << ", \"hold\": " << s.hold_steps << ", \"token\": \"" << (s.pre_steps % 2 == 1 ? "rvalue" : "lvalue") << "\", \"body_steps\": " << s.body_steps << ", \"body\": \""
            << (s.body_action == 0 ? "none" : s.body_action == 1 ? "destroy_self" : "destroy_cb" + std::to_string(s.other)) << "\"}";
     }
     os << "], \"observer_polls\": " << c.obs_steps << ", \"mode\": \"" << (c.no_stop ? "no_stop: source destroyed after " + std::to_string(c.src_gone_after) + " steps" : std::string("request_stop")) << "\"";
@@ -178,7 +178,8 @@ static Outcome run(tape_t const& tape)
             for (int k = 0; k < sp.pre_steps; ++k) vt::step();
             bool stop_was_done = W.stop_done;
             ++W.in_lock_op;
-            auto* p = new callback_t(tok, Body{&W, static_cast<int>(j)});
+            // both constructor overloads: from an lvalue token and (odd pre_steps; derived from an existing draw) from an rvalue token
+            auto* p = (sp.pre_steps % 2 == 1) ? new callback_t(pika::stop_token(tok), Body{&W, static_cast<int>(j)}) : new callback_t(tok, Body{&W, static_cast<int>(j)});
             --W.in_lock_op;
             // the body may already have destroyed "itself" only after the slot is published; an inline run
             // from the constructor finds an empty slot and therefore leaves the object to us
